@@ -35,12 +35,6 @@ Definition replica (k : case) : rres := replica_run get_ticks_pf dec_pf [] (mk_t
 Definition master (k : case) : store := master_run [] (mk_tgs k).
 
 Definition qrow_eqb (q : qrow) (o : Z * positive) : bool := (q_time q =? fst o) && bytes_eqb (q_data q) (unhexp (snd o)).
-Fixpoint all2 {A B} (f : A -> B -> bool) (a : list A) (b : list B) : bool :=
-  match a, b with
-  | [], [] => true
-  | x :: a', y :: b' => f x y && all2 f a' b'
-  | _, _ => false
-  end.
 Definition rows_eqb (m : option (list qrow)) (o : option (list (Z * positive))) : bool :=
   match m, o with
   | None, None => true
@@ -78,27 +72,11 @@ Definition secs_inside (w : ws) : bool :=
 
 Definition in_domain (k : case) : bool :=
   forallb homogeneous (mk_tgs k) && negb (existsb (existsb secs_inside) (mk_tgs k))
-  && match replica k with RUnmodelled | RPanic => false | _ => true end.
+  && run_okb get_ticks_pf dec_pf [] (mk_tgs k).
 
-(** the property evaluated on the model: the replica replays everything and every bucket's rows agree:
-    FIXED exactly, VARIABLE with the same columns and timestamps within two resolution steps *)
-Definition step_ns (tf : Z) : Z := (tf + 4294967295) / 4294967296.
-Definition close_rows (tol : Z) (a b : list qrow) : bool :=
-  all2 (fun x y => (Z.abs (q_time x - q_time y) <=? tol) && bytes_eqb (q_data x) (q_data y)) a b.
-
+(** the property evaluated on the model: the replica replays everything and has converged *)
 Definition model_converges (k : case) : bool :=
   match replica k with
-  | ROk sr =>
-      let sm := master k in
-      forallb (fun '(b, v) =>
-                 match find_bucket sr b with
-                 | None => false
-                 | Some v' =>
-                     (b_rt v =? b_rt v') && shapes_eqb (b_shapes v) (b_shapes v') &&
-                     match query dec_pf sm b, query dec_pf sr b with
-                     | Some l, Some l' => close_rows (if b_rt v =? RT_FIXED then 0 else 2 * step_ns (b_tf v)) l l'
-                     | _, _ => false
-                     end
-                 end) sm
+  | ROk sr => convergedb dec_pf (master k) sr
   | _ => false
   end.
